@@ -1415,6 +1415,10 @@ class SVG:
         if violations:
             raise ValueError("Unable to convert to picosvg: " + ",".join(violations))
 
+        if drop_unsupported:
+            # groups may have lost children that were just dropped
+            self._tidy_after_pruning(ndigits)
+
         return self
 
     def _tidy_after_pruning(self, ndigits):
